@@ -8,7 +8,7 @@ prop = sys.argv[1]
 idx = json.load(open(os.path.join(ROOT, "obligations.json")))
 src = open(os.path.join(ROOT, "lean", "Fcgi", "Props", prop + ".lean")).read()
 ns = re.search(r"^namespace\s+(\S+)", src, re.M).group(1)
-names = [ns + "." + m for m in re.findall(r"^(?:private\s+|protected\s+)?theorem\s+([A-Za-z_0-9.'!?]+)", src, re.M)]
+names = [ns + "." + m for m in re.findall(r"^(?:protected\s+)?theorem\s+([A-Za-z_0-9.'!?]+)", src, re.M)]
 e = idx.setdefault(prop, {"modules": ["Fcgi.Props." + prop], "theorems": [], "modelled": "", "assumptions": [], "open": []})
 e["theorems"] = names
 e["open"] = [ns + "." + m for m in re.findall(r"^def\s+([A-Za-z_0-9.']+_full)\b", src, re.M)]
